@@ -17,6 +17,11 @@ def ratOfString (s : String) : Option Rat :=
 
 def ratToString (q : Rat) : String := s!"{q.num}/{q.den}"
 
+def jVal (j : Json) (k : String) : Except String Json :=
+  match j.getObjVal? k with
+  | .ok v => .ok v
+  | .error _ => .error s!"missing field {k}"
+
 def jStr (j : Json) (k : String) : Except String String :=
   match j.getObjVal? k with
   | .ok (.str s) => .ok s
